@@ -17,6 +17,9 @@ def main():
     area, hn = sys.argv[1], sys.argv[2]
     rnd = sys.argv[sys.argv.index("--round") + 1] if "--round" in sys.argv else ""
     out = f"/tmp/outr{rnd}_{area}/{hn}"
+    stored = "--stored" in sys.argv       # re-run the checks against a refactoring already kept under /verif/seeded (suite confirmed then)
+    if stored:
+        out = os.path.join(V, "seeded", f"harmless_{area}_{'r' + rnd if rnd else ''}{hn}")
     patch = os.path.join(out, "patch.diff")
     copy = f"/tmp/refrepo{rnd}_{area}_{hn}"
     shutil.rmtree(copy, ignore_errors=True)
@@ -24,8 +27,11 @@ def main():
     rc, o = sh(f"patch -p1 -s < {patch}", cwd=copy)
     if rc != 0:
         print("patch does not apply:", o[-300:]); return 2
-    rc, o = sh("cargo test --workspace --offline 2>&1", cwd=copy, env={"CARGO_TARGET_DIR": f"/tmp/wtr{rnd}_{area}/target"})
-    passed = sum(int(x) for x in re.findall(r"test result: ok\. (\d+) passed", o))
+    if stored:
+        rc, passed = 0, json.load(open(os.path.join(out, "meta.json"))).get("suite_passed", 0)
+    else:
+        rc, o = sh("cargo test --workspace --offline 2>&1", cwd=copy, env={"CARGO_TARGET_DIR": f"/tmp/wtr{rnd}_{area}/target"})
+        passed = sum(int(x) for x in re.findall(r"test result: ok\. (\d+) passed", o))
     print(f"suite: rc={rc} passed={passed}")
     if rc != 0:
         shutil.rmtree(copy, ignore_errors=True); return 2
@@ -45,6 +51,13 @@ def main():
             print(f"  FALSE ALARM {p}: {vio} :: {detail[:700]}")
     print(f"{area}/{hn}: {len(alarms)} false alarm(s) out of {len(props)} checks: {sorted(alarms)}")
     dst = os.path.join(V, "seeded", f"harmless_{area}_{'r' + rnd if rnd else ''}{hn}")
+    if stored:
+        m = json.load(open(os.path.join(dst, "meta.json")))
+        m["false_alarms"] = alarms
+        m["checks_run"] = props
+        json.dump(m, open(os.path.join(dst, "meta.json"), "w"), indent=1)
+        shutil.rmtree(copy, ignore_errors=True)
+        return 0
     shutil.rmtree(dst, ignore_errors=True); os.makedirs(dst)
     for f in ("patch.diff", "notes.md"):
         if os.path.exists(os.path.join(out, f)):
